@@ -1168,6 +1168,51 @@ class Emitter:
             for n, tt, tty in binds:
                 sub.env[n] = (tt, tty)
             return '(let %s := %s; %s)' % (ptxt, t, sub.imp(rest, vs))
+        # effects through the vector of basis handles (shared parameter cells): `hs` and `heap` are rebound
+        if s[0] == 'expr' and s[1][0] == 'mcall' and s[1][2] in ('set_sampled', 'reset_value'):
+            idx = self.basis_ref(s[1][1])
+            if idx is not None and 'hs' in vs and 'heap' in vs:
+                if s[1][2] == 'set_sampled':
+                    if len(s[1][3]) != 2:
+                        raise Untranslatable('set_sampled arity')
+                    step, _ = self.ex(s[1][3][1])
+                    return ('(let hp := (Handle.setSampled (hs[%s]?.getD dummyHandle) heap %s draw); '
+                            'let hs := hs.setIfInBounds %s hp.1; let heap := hp.2; %s)') % (idx, step, idx, self.imp(rest, vs))
+                return '(let heap := (Handle.resetValue (hs[%s]?.getD dummyHandle) heap); %s)' % (idx, self.imp(rest, vs))
+        if s[0] == 'assign' and s[2] == '=' and s[1][0] == 'path' and len(s[1][1]) == 1 and s[1][1][0] in vs and s[3][0] == 'match':
+            x = s[1][1][0]
+            sc, sty = self.ex(s[3][1])
+            if not (isinstance(sty, tuple) and sty[0] == 'opt'):
+                raise Untranslatable('assignment from a match on a non-option')
+            alts = []
+            seen = set()
+            for pat, guard, body in s[3][2]:
+                if guard is not None:
+                    raise Untranslatable('guard in an effectful match')
+                sub = self.sub()
+                if pat[0] == 'pcall' and pat[1] == ['Some'] and len(pat[2]) == 1 and pat[2][0][0] == 'pid':
+                    v = pat[2][0][1]
+                    sub.env[v] = (v, sty[1])
+                    ptxt = 'some %s' % v
+                    key = 'some'
+                elif pat[0] == 'ppath' and pat[1] == ['None']:
+                    ptxt, key = 'none', 'none'
+                else:
+                    raise Untranslatable('pattern in an effectful match')
+                if key in seen:
+                    raise Untranslatable('repeated arm')
+                seen.add(key)
+                if body[0] == 'block':
+                    st2 = list(body[1])
+                    if body[2] is None:
+                        raise Untranslatable('arm block without a value')
+                    st2.append(('assign', ('path', [x]), '=', body[2]))
+                else:
+                    st2 = [('assign', ('path', [x]), '=', body)]
+                alts.append('| %s => %s' % (ptxt, sub.imp(st2 + rest, vs)))
+            if seen != {'some', 'none'}:
+                raise Untranslatable('effectful match is not exhaustive over Some/None')
+            return '(match %s with %s)' % (sc, ' '.join(alts))
         if s[0] == 'assign' and s[1][0] == 'path' and len(s[1][1]) == 1 and s[1][1][0] in vs:
             x = s[1][1][0]
             xty = self.env[x][1]
@@ -1199,6 +1244,15 @@ class Emitter:
                 return here
             return '(match %s with | (true, imp_v) => (true, imp_v) | (false, %s) => %s)' % (here, tup, self.imp(rest, vs))
         raise Untranslatable('statement %r in an imperative fragment' % (s[0] if s[0] != 'expr' else s[1][0],))
+
+    def basis_ref(self, e):
+        """`basis.get(i).expect(..)` / `basis.get_mut(i).expect(..)` -> the Lean term of the index"""
+        if e[0] == 'mcall' and e[2] == 'expect' and e[1][0] == 'mcall' and e[1][2] in ('get', 'get_mut') \
+                and e[1][1] == ('path', ['basis']) and len(e[1][3]) == 1:
+            t, ty = self.ex(e[1][3][0])
+            if ty == 'n':
+                return t
+        return None
 
     @staticmethod
     def blk_stmts(b):
@@ -1625,6 +1679,36 @@ def gen_fns(repo):
           imp_vars=['rejections', 'kt', 'convergence_count', 'step_ratio'])
     out[g.fname] = g.text('fnsLoopTail')
 
+    # one iteration of the inner loop of `optimise_state`: the proposal through the chosen handle, the
+    # acceptance test, the undo of a rejected move (C05, C06, C19).  The three random draws become the
+    # parameters `basis_index`, `draw`, `threshold`.
+    g = Group('FnsInnerStep.lean', ['Model.Optimiser', 'Generated.FnsAccept'], 'src/optimisation.rs (optimise_state, the inner loop)')
+    g.defs.append('/-- stand-in for a handle that does not exist (excluded by the hypothesis of the tie theorem) -/\n'
+                  'def dummyHandle : Handle α := ⟨0, ((0 : Nat) : α), ((0 : Nat) : α), ((0 : Nat) : α)⟩\n')
+
+    def cut_inner(body):
+        mi = re.search(r'for\s+_\s+in\s+0\s*\.\.\s*self\.inner_steps\s*\{', body)
+        if not mi:
+            raise Untranslatable('inner loop `for _ in 0..self.inner_steps` not found')
+        inner = body[mi.end():match_brace(body, mi.end() - 1)]
+        inner, n1 = re.subn(r'let\s+basis_index\s*:\s*usize\s*=\s*basis_distribution\.sample\(&mut\s+rng\)\s*;', '', inner)
+        if n1 != 1:
+            raise Untranslatable('the inner loop does not draw `let basis_index: usize = basis_distribution.sample(&mut rng);` exactly once')
+        if len(re.findall(r'&mut\s+rng', inner)) != 2:
+            raise Untranslatable('the inner loop does not pass the generator to exactly set_sampled and accept_score')
+        return inner
+    ienv = {'self': ('self', ('st', 'Cfg')), 'hs': ('hs', 'hsvec'), 'heap': ('heap', 'heapvec'), 'score_current': ('score_current', 'f'),
+            'loop_rejections': ('loop_rejections', 'n'), 'kt': ('kt', 'f'), 'step_ratio': ('step_ratio', 'f'),
+            'basis_index': ('basis_index', 'n'), 'rng': ('()', 'unit'), 'state': ('state', ('st', 'StateObj'))}
+    im = {('Cfg', 'accept_score'): (lambda r, a: '(accept_score %s %s %s threshold)' % (a[0], a[1], a[2]), ('opt', 'f')),
+          ('StateObj', 'score'): (lambda r, a: '(score heap)', ('opt', 'f'))}
+    g.add('inner_step',
+          '(self : Cfg α) (hs : Array (Handle α)) (heap : Array α) (score : Array α → Option α) (score_current kt step_ratio : α) '
+          '(loop_rejections basis_index : Nat) (draw threshold : α)',
+          'Bool × (Array (Handle α) × Array α × α × Nat)', 'src/optimisation.rs', 'optimise_state', o_impl, ienv, cut=cut_inner,
+          methods=im, imp_vars=['hs', 'heap', 'score_current', 'loop_rejections'])
+    out[g.fname] = g.text('fnsInnerStep')
+
     g = Group('FnsBasis.lean', ['Model.Basis'], 'src/basis.rs')
     basis = read(repo, 'src/basis.rs')
     sb = impl_block(basis, r"impl<'a>\s*StandardBasis<'a>\s*\{")
@@ -1668,7 +1752,7 @@ def main():
         files = gen_fns(repo)
     except Exception as e:
         files = {}
-        for n in ('FnsLattice.lean', 'FnsSite.lean', 'FnsPacked.lean', 'FnsPotential.lean', 'FnsLineShape.lean', 'FnsMolShape.lean', 'FnsLJShape.lean', 'FnsDisc.lean', 'FnsLine.lean', 'FnsLJ.lean', 'FnsCell.lean', 'FnsWrap.lean', 'FnsAccept.lean', 'FnsBuild.lean', 'FnsLoopTail.lean', 'FnsBasis.lean'):
+        for n in ('FnsLattice.lean', 'FnsSite.lean', 'FnsPacked.lean', 'FnsPotential.lean', 'FnsLineShape.lean', 'FnsMolShape.lean', 'FnsLJShape.lean', 'FnsDisc.lean', 'FnsLine.lean', 'FnsLJ.lean', 'FnsCell.lean', 'FnsWrap.lean', 'FnsAccept.lean', 'FnsBuild.lean', 'FnsLoopTail.lean', 'FnsInnerStep.lean', 'FnsBasis.lean'):
             files[n] = '/- GENERATED: rs2lean failed: %s -/\nnamespace PV.Gen\nend PV.Gen\n' % str(e).replace('-/', '- /')
     for name, text in files.items():
         path = os.path.join(outdir, name)
